@@ -136,7 +136,7 @@ func runC16(e *Env, p *Plan) {
 			cp := p.Clients[op.Client]
 			t := e.Tok(op.Tok)
 			t.mu.Lock()
-			started, ended, val := len(t.HCtx), len(t.HEnd), t.Val
+			started, ended, val := len(t.HCtx), len(t.HEnd), t.RevVal
 			t.mu.Unlock()
 			if started > ended {
 				e.Violate("C16.reverse-call-fails-not-blocks", "the notification handler of tok=%d (client %s) is still blocked in its reverse call", t.ID, cp.Name)
